@@ -164,11 +164,10 @@ fn c10_open_rounding_no_impact_u8() {
     open_rounding::<u8, 1>(false);
 }
 
-//@ prop=C10 tier=thorough kind=hold
+//@ prop=C10 tier=quick kind=hold
 //@ enc=IncreasePosition::get_execution_params, PositionExt::capped_positive_position_price_impact, PositionExt::position_price_impact, PoolDelta::price_impact, PerpMarketExt::cap_positive_position_price_impact, Unsigned::as_divisor_to_round_up_magnitude_div
 //@ bound=T=u8, DECIMALS=1: as c10_open_rounding_no_impact_u8 with symbolic impact factors (exponent 1*UNIT), impact pool and max positive impact factor
 //@ stubs=none; hook as above
-//@ timeout=3600 mem=30
 #[kani::proof]
 #[kani::unwind(4)]
 fn c10_open_rounding_with_impact_u8() {
